@@ -255,3 +255,115 @@ def _uncaught(Context, src):
         return "no error"
     except Exception as e:  # noqa
         return f"{type(e).__name__}|{e}".split("|", 1)[1] if type(e).__name__ == "JSError" else f"{type(e).__name__}: {e}"
+
+
+# ---- bounded: the thrown value arrives intact, whatever it is and whichever way it travels ---------------------------------
+THROWN = ["0", "-0", "''", "null", "undefined", "false", "NaN", "1", "'s'", "true", "obj", "arr", "fn", "new Error('m')", "new TypeError('t')", "[]", "({})"]
+ROUTES = {
+    "direct": "throw V",
+    "function": "(function () { throw V })()",
+    "eval": "eval('throw V')",
+    "indirect-eval": "(0, eval)('throw V')",
+    "Function": "new Function('throw V')()",
+    "eval-in-function": "(function () { return eval('throw V') })()",
+    "callback-map": "[1].map(function () { throw V })",
+    "callback-sort": "[2, 1].sort(function () { throw V })",
+    "callback-replace": "'a'.replace(/a/, function () { throw V })",
+    "callback-reduce": "[1, 2].reduce(function () { throw V })",
+    "getter": "({get x() { throw V }}).x",
+    "getter-Object.values": "Object.values({get x() { throw V }})",
+    "getter-Object.entries": "Object.entries({get x() { throw V }})",
+    "getter-Object.assign": "Object.assign({}, {get x() { throw V }})",
+    "setter-Object.assign": "Object.assign({set x(v) { throw V }}, {x: 1})",
+    "getter-JSON.stringify": "JSON.stringify({get x() { throw V }})",
+    "toJSON": "JSON.stringify({toJSON: function () { throw V }})",
+    "valueOf": "({valueOf: function () { throw V }}) * 1",
+    "toString": "'' + {toString: function () { throw V }}",
+    "call": "(function () { throw V }).call(null)",
+    "apply": "(function () { throw V }).apply(null, [])",
+    "bind": "(function () { throw V }).bind(null)()",
+    "new": "new (function () { throw V })()",
+    "eval-in-callback": "[1].forEach(function () { eval('throw V') })",
+    "callback-in-eval": "eval('[1].forEach(function () { throw V })')",
+    "finally-passes": "try { throw V } finally { 1 }",
+    "rethrow": "try { throw V } catch (x) { throw x }",
+    "nested-eval": "eval(\"eval('throw V')\")",
+}
+
+
+def _thrown_chunk(routes):
+    from microjs import Context
+    bad, n = [], 0
+    for rn in routes:
+        for v in THROWN:
+            src = ("var obj = {k: 1}, arr = [1], fn = function () {}; var W = " + v + "; var r = 'not thrown', count = 0; try { " + ROUTES[rn].replace("V", "W")
+                   + " } catch (e) { count++; r = (e === W) || (e !== e && W !== W) ? (e === 0 ? (1 / e === 1 / W) : true) : 'got ' + typeof e + ' ' + String(e) } r + '|' + count")
+            n += 1
+            try:
+                got = Context(time_limit=10).eval(src)
+            except BaseException as e:  # noqa
+                got = f"!{type(e).__name__}: {e}"[:120]
+            if got != "true|1":
+                bad.append((rn, v, src, got))
+    return n, bad
+
+
+@groups.group(id="C07.bounded.thrown-values", prop="C07", kind="B", functions=["microjs.vm:VM._throw", "microjs.vm:VM._rethrow_script_error", "microjs.context:Context._create_eval_function"])
+def c07_thrown_values(tier="quick", seed=0):
+    """every kind of value (falsy ones, both zeros, NaN, null, undefined, objects by identity) thrown through every route
+    script code can be run by (directly, eval, Function, callbacks of built-ins, accessors read by built-ins, conversions,
+    call/apply/bind/new, nested combinations) reaches the catch clause exactly once and is the SAME value"""
+    import multiprocessing as mp
+    names = sorted(ROUTES)
+    with mp.get_context("fork").Pool(8) as pool:
+        rs = pool.map(_thrown_chunk, [names[i::8] for i in range(8)])
+    bad = [b for _, bs in rs for b in bs]
+    by = {}
+    for rn in names:
+        fails = [b for b in bad if b[0] == rn]
+        by[rn] = fails
+    return [ob(f"C07.bounded.thrown-values.{rn}", not f, "B", f"{len(THROWN)} values" if not f else f"throw {f[0][1]} via {rn}: {f[0][3]}",
+               witness=(f[0][2] if f else None), confirmed=True if f else None, domain=len(THROWN)) for rn, f in by.items()]
+
+
+# ---- bounded: errors raised by built-ins are catchable Error objects of the right kind -------------------------------------
+BUILTIN_ERRORS = [
+    ("null.x", "TypeError"), ("undefined.x", "TypeError"), ("null.x = 1", "TypeError"), ("undefinedName", "ReferenceError"), ("(1)()", "TypeError"), ("new (1)()", "TypeError"), ("({}).f()", "TypeError"),
+    ("new Array(-1)", "RangeError"), ("'a'.repeat(-1)", "RangeError"), ("(1).toFixed(200)", "RangeError"), ("(1).toString(99)", "RangeError"), ("(1).toPrecision(0)", "RangeError"),
+    ("JSON.parse('{')", "SyntaxError"), ("JSON.parse('[1, NaN]')", "SyntaxError"), ("JSON.parse('Infinity')", "SyntaxError"), ("JSON.parse('-Infinity')", "SyntaxError"), ("JSON.parse('')", "SyntaxError"),
+    ("JSON.parse(\"{'a': 1}\")", "SyntaxError"), ("JSON.parse('[' .repeat(5000))", "SyntaxError"), ("JSON.parse('01')", "SyntaxError"), ("JSON.parse(undefined)", "SyntaxError"),
+    ("var c = {}; c.c = c; JSON.stringify(c)", "TypeError"), ("var c = []; c[0] = c; JSON.stringify(c)", "TypeError"),
+    ("new RegExp('(')", "SyntaxError"), ("new RegExp('[')", "SyntaxError"), ("'a'.match('(')", "SyntaxError"), ("'a'.search('*')", "SyntaxError"), ("new RegExp('a{2,1}')", "SyntaxError"),
+    ("eval('(')", "SyntaxError"), ("eval('1 +')", "SyntaxError"), ("new Function('(')", "SyntaxError"), ("new Function('a b', '1')", "SyntaxError"),
+    ("[].reduce(function () {})", "TypeError"), ("[1].map()", "TypeError"), ("[1].forEach(3)", "TypeError"), ("[2, 1].sort(null)", "TypeError"), ("[].filter('f')", "TypeError"),
+    ("Object.create(5)", "TypeError"), ("var a = {}, b = Object.create(a); Object.setPrototypeOf(a, b)", "TypeError"),
+    ("'abc'.replaceAll(/b/, 'x')", "TypeError"), ("1 instanceof 1", "TypeError"), ("'a' in 'b'", "TypeError"), ("new (() => 1)()", "TypeError"), ("[].push.call({}, 1)", "TypeError"),
+    ("var a = [1]; a[5] = 1", "TypeError"), ("new Uint8Array(-1)", "RangeError"), ("new Uint8Array(4).set([1, 2, 3, 4, 5])", "RangeError"), ("new Uint16Array(new ArrayBuffer(3))", "RangeError"),
+    ("new Array(4294967296)", "RangeError"), ("var a = []; a.length = -1", "RangeError"), ("'a'.repeat(Infinity)", "RangeError"), ("'ab'.repeat(1e9)", "RangeError"),
+]
+
+
+@groups.group(id="C07.bounded.builtin-errors", prop="C07", kind="B", functions=["microjs.vm:VM._handle_python_exception", "microjs.context:Context"])
+def c07_builtin_errors(tier="quick", seed=0):
+    """an error raised by a built-in (or by the engine on behalf of an operator) reaches the enclosing catch once, as an object
+    that is an instance of its constructor and of Error, with the constructor's name and a string message -- in a plain
+    try, inside a callback and inside eval"""
+    from microjs import Context
+    out = []
+    wraps = {"plain": "{X}", "in-callback": "[1].forEach(function () { {X} })", "in-eval": "eval({Q})", "in-function": "(function () { {X} })()"}
+    for wn, w in wraps.items():
+        bad = None
+        for src, kind in BUILTIN_ERRORS:
+            import json as _j
+            body = w.replace("{X}", src).replace("{Q}", _j.dumps(src))
+            prog = ("var n = 0, r = 'no error'; try { " + body + " } catch (e) { n++; r = [e instanceof " + kind + ", e instanceof Error, e.name, typeof e.message, typeof e.stack !== 'function',"
+                    " e.toString().indexOf(e.name + ': ') === 0, ('' + e) === e.toString(), e instanceof Object].join() } r + '|' + n")
+            try:
+                got = Context(time_limit=10, memory_limit=50_000_000).eval(prog)
+            except BaseException as e:  # noqa
+                got = f"!{type(e).__name__}: {e}"[:120]
+            if got != f"true,true,{kind},string,true,true,true,true|1" and bad is None:
+                bad = (prog, f"{src}: {got}")
+        out.append(ob(f"C07.bounded.builtin-errors.{wn}", bad is None, "B", f"{len(BUILTIN_ERRORS)} error sites" if bad is None else bad[1],
+                      witness=(bad[0] if bad else None), confirmed=True if bad else None, domain=len(BUILTIN_ERRORS)))
+    return out
